@@ -171,7 +171,7 @@ func (env *ExecEnv) expand(word ast.Word, mode ExpMode) (fields []*field, err er
 				}
 				return nil, err
 			}
-			fields[len(fields)-1].join(strconv.Itoa(n), true)
+			fields[len(fields)-1].join(strconv.Itoa(n), mode&Quote != 0)
 		}
 	}
 	return
